@@ -103,6 +103,21 @@ func genInjectMode(r *rng, out *bufio.Writer, nprog int, maxK int, irq bool) {
 			if mode == 0 {
 				kinds = []Intr{{Type: 0}} // mode 0 has known findings; NMI only
 			}
+			// the device replaces the breakpoint set as a whole at the k-th port access: the HALT address / a handler address / nothing
+			haltAt := base + uint16(len(prog)) - 3
+			for k := 1; k <= nports; k++ {
+				acts := []Intr{{Type: 77, Data: []uint8{uint8(haltAt >> 8), uint8(haltAt)}}, {Type: 77}, {Type: 77, Data: []uint8{0xff}}, {Type: 77, Data: []uint8{uint8(sub >> 8), uint8(sub), 0x00, 0x38}}}
+				act := acts[r.n(len(acts))]
+				bp := []string{"nil", "-", fmt.Sprintf("%04x", haltAt), fmt.Sprintf("%04x", sub)}[r.n(4)]
+				for _, kindName := range []string{"runirq", "stepirq"} {
+					vv := *v
+					vv.Kind = kindName
+					vv.ID = fmt.Sprintf("ri-%d-b%d-%s", p, k, kindName)
+					vv.Inj = []Inject{{At: k, Intr: act}}
+					vv.BP = bp
+					fmt.Fprintln(out, vv.String())
+				}
+			}
 			for k := 1; k <= nports+1; k++ {
 				for ki, kd := range kinds {
 					bp := v.BP
